@@ -722,6 +722,14 @@ def run_unit(spec, tier, repo_root=None, variant=None, keep=None, extra_defs=())
         res['failed'] = [dict(name=o[0], description=o[1], status=o[2], clause=o[4],
                               function=o[3].get('function'), line=o[3].get('line'), file=os.path.basename(o[3].get('file', '')))
                          for o in obligations if o[2] == 'FAILURE']
+        # a failed UNWINDING ASSERTION of a bounded unit says the bound is too small for this configuration: undecided,
+        # never a violation of the property
+        unw = [f for f in res['failed'] if '.unwind.' in (f['name'] or '') or 'unwinding assertion' in (f['description'] or '')]
+        if unw:
+            res['failed'] = [f for f in res['failed'] if f not in unw]
+            if not res['failed']:
+                res['reason'] = 'unwinding assertion(s) failed (%s): the bound of this bounded unit is too small for this configuration: undecided' % unw[0]['name']
+                return res
         # any other non-SUCCESS status (ERROR: solver out of memory / back-end failure, UNKNOWN) is NOT a refutation
         errs = [o for o in obligations if o[2] not in ('SUCCESS', 'FAILURE')]
         res['no_answer'] = len(errs)
